@@ -47,6 +47,27 @@ func checkC17(c *Ctx, r *Result, tier string) {
 		}
 	}
 	if pred == nil {
+		// diagnose the candidates: functions of package util taking two strings and returning a bool first
+		for _, fn := range c.ModFuncs() {
+			if c.PkgOf(fn) != "util" || fn.Parent() != nil || fn.Signature.Params().Len() != 2 || fn.Signature.Results().Len() == 0 ||
+				fn.Signature.Results().At(0).Type().String() != "bool" || fn.Signature.Params().At(0).Type().String() != "string" || fn.Signature.Params().At(1).Type().String() != "string" {
+				continue
+			}
+			key := c.FuncKey(fn)
+			pos := c.Pos(fn.Pos())
+			rels := callSites(fn, func(name string, _ ssa.CallInstruction) bool { return name == "path/filepath.Rel" })
+			prefix := callSites(fn, func(name string, _ ssa.CallInstruction) bool { return name == "strings.HasPrefix" })
+			switch {
+			case len(rels) > 0 && fn.Signature.Results().Len() == 1:
+				r.Instance("R17b", key+"#rel-error", pos, "finding", "error of filepath.Rel dropped", true)
+				r.Report(Finding{Rule: "R17b", Site: key + "#rel-error", Pos: pos,
+					Msg: key + ": the containment test calls filepath.Rel but cannot report its error (it returns only a bool): when Rel fails it returns \"\", which does not start with `..`, so the path counts as inside the root — an empty root with a rooted import path reads any absolute file"})
+			case len(rels) == 0 && len(prefix) > 0:
+				r.Instance("R17b", key+"#string-prefix", pos, "finding", "containment by string prefix", true)
+				r.Report(Finding{Rule: "R17b", Site: key + "#string-prefix", Pos: pos,
+					Msg: key + ": containment is decided by strings.HasPrefix on path strings instead of on the relative path's first component: the separator boundary is lost — root `code` contains `code.bak/secret` and `code2/x`, reachable with `..` segments"})
+			}
+		}
 		r.Undecide("no containment predicate (func(string,string)(bool,error) using filepath.Rel) found")
 		return
 	}
